@@ -190,8 +190,7 @@ class Ctx:
         cfg = cfg or (module + ".cfg")
         w = workers or self.workers
         jopts = ["-XX:+UseParallelGC", "-Xss64m"]
-        if heap:
-            jopts.append("-Xmx" + heap)
+        jopts.append("-Xmx" + (heap or os.environ.get("VERIF_TLC_HEAP", "8g")))
         if dfs:
             jopts.append("-Dtlc2.tool.queue.IStateQueue=StateDeque")
         argv = ["java"] + jopts + ["-cp", TLA_CP, "tlc2.TLC", "-config", cfg,
